@@ -1,5 +1,6 @@
 from __future__ import annotations
 
+import copy
 import math
 from collections import Counter
 from typing import Sequence, Type, TypeVar, Mapping
@@ -59,9 +60,13 @@ class StateVector(State[complex, torch.Tensor]):
     def __deepcopy__(self, memo: dict) -> StateVector:
         # torch refuses to deep-copy tensors that are part of an autograd graph;
         # a clone keeps the copy (e.g. a StateResult) differentiable.
-        return type(self)(
-            self.data.clone(), gpu=self.data.is_cuda, eigenstates=self.eigenstates
-        )
+        result = copy.copy(self)
+        memo[id(self)] = result
+        for name, value in self.__dict__.items():
+            if name != "data":
+                setattr(result, name, copy.deepcopy(value, memo))
+        result.data = self.data.clone()
+        return result
 
     def _normalize(self) -> None:
         """Normalizes the state vector to ensure it has unit norm.
